@@ -26,6 +26,10 @@ type ValOpts struct {
 	// WideBigFloat: big.Float values of any precision (up to 1200 bits, every mantissa bit in use), not
 	// only the float64-exact ones (C18: nothing is asserted about the marshaled document there)
 	WideBigFloat bool
+	// HandBuiltTimes: some compact times with an area/location zone carry the long name only, as a struct
+	// filled in by hand (it passes Validate) rather than through a constructor does (C18 only: what the
+	// codecs make of such a value is not asserted anywhere)
+	HandBuiltTimes bool
 	// IfaceContainers lets interface{} positions hold structs, pointers to structs, slices and maps
 	// (marshal-side properties only: unmarshaling cannot restore the dynamic type)
 	IfaceContainers bool
@@ -135,7 +139,7 @@ func GenType(t *rapid.T, o *ValOpts, depth int) *TypeSpec {
 			}
 			s := &TypeSpec{K: pick(t, "type.special", specialKinds)}
 			wantPtr := rapid.IntRange(0, 3).Draw(t, "type.sptr") == 0
-			if o.BigPtrBias && (s.K == "bigint" || s.K == "bigfloat" || s.K == "apd") {
+			if o.BigPtrBias && (s.K == "bigint" || s.K == "bigfloat" || s.K == "apd" || s.K == "ctime" || s.K == "time" || s.K == "url") {
 				wantPtr = rapid.IntRange(0, 3).Draw(t, "type.bptr") != 0
 			}
 			if wantPtr {
@@ -372,6 +376,9 @@ func GenVal(t *rapid.T, o *ValOpts, s *TypeSpec, depth int) *Val {
 		return &Val{T: genTimeSpec(t, "v.time", o)}
 	case "ctime":
 		tv := TimeValue(t, "v.ctime")
+		if o.HandBuiltTimes && tv.Timezone.LongAreaLocation != "" && rapid.IntRange(0, 2).Draw(t, "v.ctime.handbuilt") == 0 {
+			tv.Timezone.ShortAreaLocation = ""
+		}
 		return &Val{CT: &ev.Event{K: ev.Time, T: tv}}
 	case "bigint":
 		return &Val{Num: BigIntValue(t, "v.bigint").String()}
